@@ -25,6 +25,11 @@ class Anchors:
 
         Returns:  N/A
         """
+        if hasattr(dom, "anchor") and dom.anchor.value is not None:
+            # Any node may bear an Anchor, including an Array or a Hash that
+            # is itself an element of an Array
+            anchors[dom.anchor.value] = dom
+
         if isinstance(dom, CommentedMap):
             for key, val in dom.items():
                 if hasattr(key, "anchor") and key.anchor.value is not None:
@@ -40,9 +45,6 @@ class Anchors:
         elif isinstance(dom, CommentedSeq):
             for ele in dom:
                 Anchors.scan_for_anchors(ele, anchors)
-
-        elif hasattr(dom, "anchor") and dom.anchor.value is not None:
-            anchors[dom.anchor.value] = dom
 
     @staticmethod
     def rename_anchor(dom: Any, anchor: str, new_anchor: str):
@@ -65,6 +67,10 @@ class Anchors:
                 Anchors.rename_anchor(val, anchor, new_anchor)
         elif isinstance(dom, CommentedSeq):
             for ele in dom:
+                if (isinstance(ele, (CommentedMap, CommentedSeq))
+                        and hasattr(ele, "anchor")
+                        and ele.anchor.value == anchor):
+                    ele.anchor.value = new_anchor
                 Anchors.rename_anchor(ele, anchor, new_anchor)
         elif hasattr(dom, "anchor") and dom.anchor.value == anchor:
             dom.anchor.value = new_anchor
